@@ -11,6 +11,7 @@ import collections
 
 from hypothesis import strategies as st
 
+from . import gen
 from .common import Sub, Violation, lib
 
 ID = "C13"
@@ -90,15 +91,33 @@ def history():
         "init": _items(4),
         "init_kind": _kind,
         "ops": st.lists(_op(), min_size=1, max_size=40),
+        # element type of the state entries handed to AnnealResult: python ints, numpy scalars (unsigned for boolean
+        # states, signed for spin states), floats
+        "vtype": gen.pick(("int", 5), ("np_small", 1), ("np_int64", 1), ("float", 1)),
     })
 
 
 # ---------------------------------------------------------------------------
 
 
+_VTYPE = {"t": "int"}       # element type of the state entries of the history being run (set by run_case)
+
+
+def _entry(v, spin):
+    import numpy as np
+    t = _VTYPE["t"]
+    if t == "np_small":
+        return np.int8(v) if spin else np.uint8(v)
+    if t == "np_int64":
+        return np.int64(v)
+    if t == "float":
+        return float(v)
+    return v
+
+
 def _mk(qsim, it):
     state, value, spin = it
-    return qsim.AnnealResult(dict(state), value, spin)
+    return qsim.AnnealResult({l: _entry(v, spin) for l, v in dict(state).items()}, value, spin)
 
 
 def _triple(r):
@@ -164,6 +183,9 @@ def run_case(spec, rec):
 
     classes = set()
     nontrivial = False
+    _VTYPE["t"] = spec.get("vtype") or "int"
+    if _VTYPE["t"] != "int":
+        classes.add("state_entries=" + _VTYPE["t"])
     model = [_mtriple(it) for it in spec["init"]]
     real = lib(qsim.AnnealResults, _operand(qsim, spec["init_kind"], spec["init"]), what="construct")
     check_invariant(real, model, "construct", qsim)
